@@ -82,7 +82,7 @@ PROPS = {
                                     [H('c03_hist_n3_k3', 'piecewise', 'segments N = 3, history length 3 (public-API cross-check)', False, EV_FNS)]}],
             'thorough': [{'set': 'c03', 'jobs': 8, 'timeout': 6000,
                           'harnesses': hs('c03_new_n', 'piecewise', [1, 2, 3, 4], 'segments N = {n}', EV_FNS[:1]) +
-                                       hs('c03_step_n', 'piecewise', [1, 2, 3, 4, 5, 6], 'segments N = {n}; history length unbounded (inductive step)', EV_FNS[1:]) +
+                                       hs('c03_step_n', 'piecewise', [1, 2, 3, 4, 5, 6, 8, 10], 'segments N = {n}; history length unbounded (inductive step)', EV_FNS[1:]) +
                                        [H('c03_hist_n2_k3', 'piecewise', 'segments N = 2, history length 3', False, EV_FNS),
                                         H('c03_hist_n3_k3', 'piecewise', 'segments N = 3, history length 3', False, EV_FNS),
                                         H('c03_hist_n4_k3', 'piecewise', 'segments N = 4, history length 3', False, EV_FNS)]}],
@@ -92,7 +92,7 @@ PROPS = {
         'explanation': 'Representation invariant of PiecewiseEvaluator proved inductive with Kani on the real code: new() establishes it; from ANY state '
                        'satisfying it, ANY non-NaN query returns the piece direct evaluation selects (with argument x) and re-establishes it. '
                        'Hence all histories of any length; bounded only in the number of segments.',
-        'assumptions': [PARAM, 'bounded: number of segments N <= 4 (quick) / 6 (thorough); history length is NOT bounded'],
+        'assumptions': [PARAM, 'bounded: number of segments N <= 4 (quick) / N in 1..6, 8, 10 (thorough); history length is NOT bounded'],
     },
 }
 
@@ -148,6 +148,11 @@ def c11_set(ns):
     out = []
     for pre, f in (('c11_integral_n', INT_FNS[2:3]), ('c11_iter_ref_n', INT_FNS[0:1]), ('c11_iter_n', INT_FNS[1:2]), ('c11_indefinite_n', INT_FNS[3:4])):
         out += hs(pre, 'piecewise', ns, 'pieces N = {n}', f)
+    out += [H('c11_integral_tiny_n3', 'piecewise', 'pieces N = 3; ordinates are multiples of 2^-60 (tiny magnitudes)', False, INT_FNS[2:3] + INT_FNS[4:5]),
+            H('c11_iter_tiny_n2', 'piecewise', 'pieces N = 2; ordinates are multiples of 2^-60', False, INT_FNS[1:2]),
+            H('c11_indefinite_tiny_n3', 'piecewise', 'pieces N = 3; ordinates are multiples of 2^-60', False, INT_FNS[3:4]),
+            H('c11_iter_filter_n3', 'piecewise', 'pieces N = 3; input iterator with an inexact size hint (filter)', False, INT_FNS[1:2]),
+            H('c11_iter_ref_filter_n3', 'piecewise', 'pieces N = 3; input iterator with an inexact size hint (filter)', False, INT_FNS[0:1])]
     return out + [H('c11_empty', 'piecewise', None, True, INT_FNS[2:4])]
 
 
@@ -173,15 +178,15 @@ def c12_set(names):
 
 PROPS['C12'] = {
     'verus': [],
-    'kani': {'quick': [kset('c12', c12_set(['c12_n1_k3', 'c12_n2_k3', 'c12_n3_k3', 'c12_n4_k3']))],
-             'thorough': [kset('c12', c12_set(['c12_n1_k3', 'c12_n2_k3', 'c12_n3_k3', 'c12_n4_k3', 'c12_n3_k4', 'c12_n4_k4']), timeout=6000)]},
+    'kani': {'quick': [kset('c12', c12_set(['c12_n1_k3', 'c12_n2_k3', 'c12_n3_k3', 'c12_n4_k3', 'c12_n5_k2', 'c12_n6_k2']))],
+             'thorough': [kset('c12', c12_set(['c12_n1_k3', 'c12_n2_k3', 'c12_n3_k3', 'c12_n4_k3', 'c12_n3_k4', 'c12_n4_k4', 'c12_n5_k2', 'c12_n6_k2', 'c12_n8_k2']), timeout=6000)]},
     'probe': False,
     'level': 'model_checking',
     'explanation': 'Kani harness on the real evaluate_v with recording Tag pieces and a counting input iterator: for sorted non-NaN ends and any non-NaN '
                    'argument sequence, output k is the piece direct evaluation selects for the running maximum, evaluated at argument k itself, produced '
                    'after exactly k+1 inputs were pulled; for non-decreasing arguments that piece is the one pointwise evaluation selects. Bounded in N and K '
                    '(the cursor lives inside the returned closure, so no invariant can be attached to it).',
-    'assumptions': [PARAM, 'bounded: N <= 4 segments, K = 3 arguments (quick); N <= 4, K <= 4 (thorough)'],
+    'assumptions': [PARAM, 'bounded: (N segments, K arguments) in {(1..4,3), (5,2), (6,2)} (quick); plus (3,4), (4,4), (8,2) (thorough)'],
 }
 
 
@@ -227,12 +232,15 @@ def c15_set(ns):
     for op, f in fs.items():
         out += hs(f'c15_{op}_n', 'piecewise', ns, 'pieces N = {n}', ['src/piecewise.rs: ' + f])
     out.append(H('c15_segment_ops', 'piecewise', None, True, ['src/piecewise.rs: Segment::{mul, mul_assign (x2), translate, derivative}']))
+    # the operation on the piece types that are themselves generic wrappers (shared with C14)
+    out.append(H('c14_log_wrapper', 'log_poly', None, True, ['src/log_poly.rs: Log<T>::{mul, mul_assign, translate}']))
+    out.append(H('c14_intoflog_wrapper', 'log_poly', SMALL + '; scalar in {2, -1, 0.5, 0}', False, ['src/log_poly.rs: IntOfLog<T>::{add, neg, mul, mul_assign, translate}']))
     return out
 
 
 PROPS['C15'] = {
     'verus': [],
-    'kani': {'quick': [kset('c15', c15_set([1, 2, 3, 4]))], 'thorough': [kset('c15', c15_set([1, 2, 3, 4]))]},
+    'kani': {'quick': [kset('c15', c15_set([1, 2, 3, 4]), extra=['--solver', 'kissat'])], 'thorough': [kset('c15', c15_set([1, 2, 3, 4, 5, 8]), extra=['--solver', 'kissat'])]},
     'probe': False,
     'level': 'other',
     'explanation': 'Kani harnesses on the real Piecewise::{mul, mul_assign, neg, translate} and the Segment-level operations with recording OpTag pieces: '
@@ -302,7 +310,7 @@ PROPS['C14'] = {
                     PARAM + ' (used for the generic wrappers Log<T>, IntOfLog<T>)',
                     'bit-level lane assertions ([bits]) are secondary: their failure alone is reported only with a concrete failing input'],
 }
-PROPS['C14']['kani']['thorough'] = PROPS['C14']['kani']['quick']
+PROPS['C14']['kani']['thorough'] = [dict(PROPS['C14']['kani']['quick'][0], timeout=6000, harnesses=PROPS['C14']['kani']['quick'][0]['harnesses'] + [H('c14_quartic_add_sub_full', 'log_poly', 'any finite numbers (about 16 min)', False, ['src/log_poly.rs: IntOfLogPoly4::{add, sub}'])])]
 
 
 SPL = ['src/spline.rs: constrained_spline (zip/chain/skip wiring)']
